@@ -165,6 +165,18 @@ partial def specOfJson (j : Json) : Except String Spec := do
   | "switch" => return .switch (← pairs "cases") (← optSub "dflt")
   | "probe" => return .probe (← j.getObjValAs? Nat "id")
   | "iter" => return .iter (← sub "s") ((j.getObjValAs? Bool "map").toOption.getD false)
+  | "inspect" =>
+    -- Inspect(s, echo=…, recursive=…, breakpoint=bp, post_mortem=pm): what is echoed is not observed;
+    -- `recursive` only matters together with a callback (every nested evaluation would call it)
+    let cb (f : String) : Except String (Option (String × String)) := match optField j f with
+      | some (.arr #[.str n, .str kd]) => pure (some (n, kd))
+      | some o => throw s!"bad callback {o.compress}"
+      | none => pure none
+    let bp ← cb "bp"
+    let pm ← cb "pm"
+    if (j.getObjValAs? Bool "recursive").toOption.getD false && (bp.isSome || pm.isSome) then
+      throw "Inspect(recursive=True) with callbacks is not modelled"
+    return .inspect (← sub "s") bp pm
   | _ => throw s!"unknown spec kind {k}"
 
 /-! ### Python's part, executable -/
